@@ -41,6 +41,8 @@ func mustJSON(v any) string {
 // cache's snapshot wrapper; the Lean model compiles the same list.
 func runC10(c *runCtx) {
 	defer cleanupScratch()
+	fileSource = randFile // in-memory compilation only: invented hashes are fine
+	defer func() { fileSource = nil }()
 	repo := newMock()
 	authors := mkAuthors(repo, 3)
 	rc := mustCache(repo)
